@@ -14,8 +14,11 @@
 EXTENDS Evaluator, Judge
 Check(name, b) == IF b THEN {} ELSE {name}
 Times(r, den) == IF den % r[2] = 0 THEN r[1] * (den \div r[2]) ELSE -999999
+\* C13: getCxxFormula preserves the value (cxxv = value of the compiled C++ formula, "skip" when not compiled in this tier)
+CxxOK(o, expected) == o.cxxv.got = "skip" \/ (o.cxxv.got = "value" /\ o.cxxv.tight /\ o.cxxv.q = expected)
 FailsArith(o) ==
   LET v == Val(o.tree)[2] IN
+     Check("cxx-formula", CxxOK(o, Times(v, o.den))) \cup
      UNION {Check("value:" \o k, o[k].got = "value" /\ o[k].tight /\ o[k].q = Times(v, o.den)) : k \in {"min", "ws", "full"}}
      \cup (IF o.ddx = 0 THEN Check("derivative:finite-difference", o.dx.got = "throw" \/ o.dx.fd \in {"match", "na"})
            ELSE Check("derivative", o.dx.got = "value" /\ o.dx.tight /\ o.dx.q = Times(Val(D(o.tree, "x"))[2], o.ddx)))
@@ -25,7 +28,7 @@ FailsFn(o) == Check("function:" \o o.f, o.got = o.expect /\ (o.got = "throw" \/ 
               \cup Check("derivative:" \o o.f, o.got = "throw" \/ o.dgot = "throw" \/ o.dclass \in {"match", "na"})
               \cup Check("derivative:" \o o.f, o.got = "throw" \/ o.dgoty = "throw" \/ o.dclassy \in {"match", "na"})
 CondExpected(o) == IF o.wrap = "2*(" THEN 2 * o.inner ELSE IF o.wrap = "1+(" THEN 1 + o.inner ELSE o.inner
-FailsCond(o) == UNION {Check("conditional:" \o k, o[k].got = "value" /\ o[k].tight /\ o[k].q = CondExpected(o)) : k \in {"min", "full"}}
+FailsCond(o) == Check("cxx-formula:conditional", CxxOK(o, CondExpected(o))) \cup UNION {Check("conditional:" \o k, o[k].got = "value" /\ o[k].tight /\ o[k].q = CondExpected(o)) : k \in {"min", "full"}}
 Fails(o) == IF o.kind = "arith" THEN FailsArith(o)
             ELSE IF o.kind = "cond" THEN FailsCond(o)
             ELSE IF o.kind = "reject" THEN Check("accepts-malformed", o.got = "throw")
